@@ -300,3 +300,310 @@ Proof.
   unfold append_value. cbn [p_secs p_cursec p_opt p_indent].
   rewrite upd_head, upd_last by exact H. reflexivity.
 Qed.
+
+(* ------------------------------------------------------------ the same, on the text *)
+Lemma read_end st : read_from st [] = Some st.
+Proof. reflexivity. Qed.
+
+Lemma read_section name rest :
+  nonempty name = true -> forallb (fun c => negb (c =? c_rbr)) name = true ->
+  text_eqb name default_name = false -> no_break name = true ->
+  read_from init_state (c_lbr :: name ++ c_rbr :: c_nl :: rest) =
+  read_from (mk_pstate [(name, [])] (Some name) None O) rest.
+Proof.
+  intros H1 H2 H3 H4.
+  replace (c_lbr :: name ++ c_rbr :: c_nl :: rest) with ((c_lbr :: name ++ [c_rbr]) ++ c_nl :: rest)
+    by (cbn [app]; rewrite <- app_assoc; reflexivity).
+  rewrite read_line.
+  - rewrite step_section by assumption. reflexivity.
+  - change (c_lbr :: name ++ [c_rbr]) with ([c_lbr] ++ name ++ [c_rbr]).
+    rewrite !no_break_app, H4. reflexivity.
+Qed.
+
+Lemma read_option E o key sp val kopt ind rest :
+  has_key key o = false -> key_ok key = true ->
+  forallb is_space sp = true -> no_padding val = true ->
+  no_break key = true -> no_break sp = true -> no_break val = true ->
+  read_from (mk_pstate [(E, o)] (Some E) kopt ind) (key ++ c_sp :: c_eq :: sp ++ val ++ c_nl :: rest) =
+  read_from (mk_pstate [(E, o ++ [(key, [val])])] (Some E) (Some key) O) rest.
+Proof.
+  intros H1 H2 H3 H4 B1 B2 B3.
+  replace (key ++ c_sp :: c_eq :: sp ++ val ++ c_nl :: rest)
+    with ((key ++ c_sp :: c_eq :: sp ++ val) ++ c_nl :: rest).
+  2:{ rewrite <- app_assoc. cbn [app]. rewrite <- app_assoc. reflexivity. }
+  rewrite read_line.
+  - rewrite step_option by assumption. reflexivity.
+  - change (key ++ c_sp :: c_eq :: sp ++ val) with (key ++ [c_sp; c_eq] ++ sp ++ val).
+    rewrite !no_break_app, B1, B2, B3. reflexivity.
+Qed.
+
+Lemma read_blank E pre k vs ind rest :
+  has_key k pre = false ->
+  read_from (mk_pstate [(E, pre ++ [(k, vs)])] (Some E) (Some k) ind) (c_nl :: rest) =
+  read_from (mk_pstate [(E, pre ++ [(k, vs ++ [[]])])] (Some E) (Some k) ind) rest.
+Proof.
+  intro H. change (c_nl :: rest) with ([] ++ c_nl :: rest).
+  rewrite read_line by reflexivity. rewrite step_blank by exact H. reflexivity.
+Qed.
+
+Definition real_lib (n : text) : bool := nonempty n && lib_ok n.
+
+Lemma real_lib_facts n :
+  real_lib n = true -> nonempty n = true /\ lib_ok n = true /\ no_break n = true /\ last_nonspace n = true.
+Proof.
+  unfold real_lib. intro H. apply andb_true_iff in H as [H1 H2]. repeat split; try assumption.
+  - destruct n as [|c r]; [discriminate|]. unfold lib_ok, value_ok in H2.
+    apply andb_true_iff in H2 as [H2 _]. apply andb_true_iff in H2 as [H2 _]. exact H2.
+  - destruct n as [|c r]; [discriminate|]. unfold lib_ok, value_ok, no_padding in H2.
+    apply andb_true_iff in H2 as [H2 _]. apply andb_true_iff in H2 as [_ H2].
+    apply andb_true_iff in H2 as [_ H2]. exact H2.
+Qed.
+
+(* the "  name" lines of the lib_deps value, each terminated *)
+Definition cont_lines (u : list text) : text := concat (map (fun n => c_sp :: c_sp :: n ++ [c_nl]) u).
+
+Lemma read_conts u : forall E pre k vs,
+  has_key k pre = false -> forallb real_lib u = true ->
+  read_from (mk_pstate [(E, pre ++ [(k, vs)])] (Some E) (Some k) O) (cont_lines u) =
+  Some (mk_pstate [(E, pre ++ [(k, vs ++ u)])] (Some E) (Some k) O).
+Proof.
+  induction u as [|n r IH]; intros E pre k vs Hk Hu.
+  - rewrite app_nil_r. reflexivity.
+  - cbn [forallb] in Hu. apply andb_true_iff in Hu as [Hn Hr].
+    destruct (real_lib_facts n Hn) as (N1 & N2 & N3 & N4).
+    unfold cont_lines. cbn [map concat]. fold (cont_lines r).
+    replace ((c_sp :: c_sp :: n ++ [c_nl]) ++ cont_lines r) with ((c_sp :: c_sp :: n) ++ c_nl :: cont_lines r)
+      by (cbn [app]; rewrite <- app_assoc; reflexivity).
+    rewrite read_line.
+    + rewrite step_cont by assumption. rewrite IH by assumption.
+      rewrite <- app_assoc. reflexivity.
+    + change (c_sp :: c_sp :: n) with ([c_sp; c_sp] ++ n). rewrite no_break_app, N3. reflexivity.
+Qed.
+
+(* ------------------------------------------------------------ lib section text *)
+Lemma join_lines (f : text -> text) u : forall a,
+  join [c_nl] (a :: map f u) = a ++ concat (map (fun n => c_nl :: f n) u).
+Proof.
+  induction u as [|n r IH]; intro a.
+  - cbn. rewrite app_nil_r. reflexivity.
+  - cbn [map]. change (join [c_nl] (a :: f n :: map f r)) with (a ++ [c_nl] ++ join [c_nl] (f n :: map f r)).
+    rewrite IH. cbn [concat app]. reflexivity.
+Qed.
+
+Lemma lib_tail u :
+  concat (map (fun n => c_nl :: c_sp :: c_sp :: n) u) ++ [c_nl] = c_nl :: cont_lines u.
+Proof.
+  induction u as [|n r IH]; [reflexivity|].
+  unfold cont_lines in *. cbn [map concat app].
+  rewrite <- !app_assoc. rewrite IH. reflexivity.
+Qed.
+
+Lemma last_nonspace_concat (f : text -> text) u a :
+  last_nonspace a = true ->
+  (forall n, In n u -> last_nonspace (f n) = true) ->
+  last_nonspace (a ++ concat (map f u)) = true.
+Proof.
+  revert a. induction u as [|n r IH]; intros a Ha Hu.
+  - cbn. rewrite app_nil_r. exact Ha.
+  - cbn [map concat]. rewrite app_assoc. apply IH.
+    + apply last_nonspace_app. apply Hu. left. reflexivity.
+    + intros m Hm. apply Hu. right. exact Hm.
+Qed.
+
+Lemma last_nonspace_join u :
+  u <> [] -> (forall n, In n u -> last_nonspace n = true) -> last_nonspace (join [c_nl] u) = true.
+Proof.
+  induction u as [|a r IH]; [congruence|]. intros _ Hu.
+  destruct r as [|b r'].
+  - cbn. apply Hu. left. reflexivity.
+  - change (join [c_nl] (a :: b :: r')) with (a ++ [c_nl] ++ join [c_nl] (b :: r')).
+    apply last_nonspace_app. apply last_nonspace_app. apply IH; [discriminate|].
+    intros n Hn. apply Hu. right. exact Hn.
+Qed.
+
+(* ------------------------------------------------------------ de-duplication *)
+Lemma filter_filter {A} (f g : A -> bool) l :
+  filter f (filter g l) = filter (fun x => g x && f x) l.
+Proof.
+  induction l as [|a r IH]; [reflexivity|]. cbn [filter].
+  destruct (g a); cbn [filter andb]; [destruct (f a)|]; rewrite IH; reflexivity.
+Qed.
+
+Lemma tmem_app x a b : tmem x (a ++ b) = tmem x a || tmem x b.
+Proof.
+  induction a as [|y r IH]; [reflexivity|]. cbn [app tmem]. rewrite IH, orb_assoc. reflexivity.
+Qed.
+
+Lemma text_eqb_sym a b : text_eqb a b = text_eqb b a.
+Proof.
+  destruct (text_eqb a b) eqn:E1, (text_eqb b a) eqn:E2; try reflexivity.
+  - apply text_eqb_eq in E1. subst. rewrite text_eqb_refl in E2. discriminate.
+  - apply text_eqb_eq in E2. subst. rewrite text_eqb_refl in E1. discriminate.
+Qed.
+
+(* the loop of _format_lib_section computes the accumulator-free specification *)
+Lemma collect_unique_spec libs : forall acc,
+  collect_unique acc libs = acc ++ filter (fun x => negb (tmem x acc)) (given_libs libs).
+Proof.
+  unfold given_libs.
+  induction libs as [|e r IH]; intro acc.
+  - cbn. rewrite app_nil_r. reflexivity.
+  - cbn [collect_unique filter]. destruct (nonempty e) eqn:Ene; cbn [negb].
+    + cbn [nodup_first filter]. destruct (tmem e acc) eqn:Em; cbn [negb].
+      * rewrite IH. f_equal. rewrite filter_filter. apply filter_ext. intro x.
+        destruct (text_eqb x e) eqn:Ex; [|reflexivity].
+        apply text_eqb_eq in Ex. subst. rewrite Em. reflexivity.
+      * rewrite IH. rewrite <- app_assoc. cbn [app]. f_equal. f_equal.
+        rewrite filter_filter. apply filter_ext. intro x.
+        rewrite tmem_app. cbn [tmem]. rewrite orb_false_r, negb_orb, andb_comm. reflexivity.
+    + apply IH.
+Qed.
+
+Lemma collect_unique_given libs : collect_unique [] libs = given_libs libs.
+Proof.
+  rewrite collect_unique_spec. cbn [app tmem negb].
+  induction (given_libs libs) as [|a r IH]; [reflexivity|]. cbn [filter]. rewrite IH. reflexivity.
+Qed.
+
+Lemma format_lib_section_spec libs :
+  format_lib_section libs =
+  match given_libs libs with
+  | [] => []
+  | ns => t_lib_deps_eq ++ concat (map (fun n => c_nl :: c_sp :: c_sp :: n) ns)
+  end.
+Proof.
+  unfold format_lib_section. rewrite collect_unique_given.
+  destruct (given_libs libs) as [|n r]; [reflexivity|].
+  apply (join_lines (fun n => c_sp :: c_sp :: n)).
+Qed.
+
+Lemma nodup_first_In l x : In x (nodup_first l) <-> In x l.
+Proof.
+  induction l as [|a r IH]; [tauto|]. cbn [nodup_first In]. rewrite filter_In, IH.
+  split.
+  - intros [H|[H _]]; auto.
+  - intros [H|H]; auto. destruct (text_eqb x a) eqn:E.
+    + apply text_eqb_eq in E. auto.
+    + right. split; [exact H|reflexivity].
+Qed.
+
+Lemma nodup_first_NoDup l : NoDup (nodup_first l).
+Proof.
+  induction l as [|a r IH]; [constructor|]. cbn [nodup_first]. constructor.
+  - rewrite filter_In. intros [_ H]. rewrite text_eqb_refl in H. discriminate.
+  - apply NoDup_filter. exact IH.
+Qed.
+
+(* first-seen order: the result for a prefix is a prefix of the result; what a longer list adds
+   are exactly its not-yet-seen elements, in their own first-seen order *)
+Lemma nodup_first_app l1 l2 :
+  nodup_first (l1 ++ l2) = nodup_first l1 ++ filter (fun x => negb (tmem x l1)) (nodup_first l2).
+Proof.
+  induction l1 as [|a r IH].
+  - cbn [app nodup_first tmem negb]. induction (nodup_first l2) as [|y q IHq]; [reflexivity|].
+    cbn [filter]. rewrite <- IHq. reflexivity.
+  - cbn [app nodup_first]. f_equal. rewrite IH.
+    rewrite filter_app, filter_filter. f_equal. apply filter_ext. intro x.
+    cbn [tmem]. rewrite negb_orb, andb_comm. reflexivity.
+Qed.
+
+Lemma given_libs_In libs x : In x (given_libs libs) <-> In x libs /\ x <> [].
+Proof.
+  unfold given_libs. rewrite nodup_first_In, filter_In.
+  split; intros [H1 H2]; split; try exact H1; destruct x; try discriminate; try reflexivity; congruence.
+Qed.
+
+Lemma given_libs_real libs : forallb lib_ok libs = true -> forallb real_lib (given_libs libs) = true.
+Proof.
+  intro H. apply forallb_forall. intros x Hx. apply given_libs_In in Hx as [H1 H2].
+  rewrite forallb_forall in H. unfold real_lib. rewrite (H _ H1).
+  destruct x; [congruence|reflexivity].
+Qed.
+
+(* ------------------------------------------------------------ env names *)
+Lemma sanitize_from_word t : forall f, forallb is_word (sanitize_from f t) = true.
+Proof.
+  induction t as [|c r IH]; intro f; [reflexivity|]. cbn [sanitize_from].
+  destruct (is_word c) eqn:E.
+  - cbn [forallb]. rewrite E, IH. reflexivity.
+  - destruct f; [apply IH|]. cbn [forallb]. rewrite IH. reflexivity.
+Qed.
+
+Lemma sanitize_word b : forallb is_word (sanitize_env_name b) = true.
+Proof. apply sanitize_from_word. Qed.
+
+Lemma is_word_not c d : is_word d = false -> is_word c = true -> (c =? d) = false.
+Proof.
+  intros Hd Hc. destruct (c =? d) eqn:E; [|reflexivity].
+  apply Z.eqb_eq in E. subst. congruence.
+Qed.
+
+Lemma word_text_facts s :
+  forallb is_word s = true ->
+  forallb (fun c => negb (c =? c_rbr)) s = true /\ no_break s = true.
+Proof.
+  intro H. rewrite forallb_forall in H. split; apply forallb_forall; intros c Hc; specialize (H c Hc).
+  - rewrite (is_word_not c c_rbr); [reflexivity|reflexivity|exact H].
+  - rewrite (is_word_not c c_nl), (is_word_not c c_cr); [reflexivity|reflexivity|exact H|reflexivity|exact H].
+Qed.
+
+Definition all_boards : list text := concat (map snd platforms).
+
+Definition sanitize_injective_on (l : list text) : bool :=
+  let sn := map (fun b => (b, sanitize_env_name b)) l in
+  forallb (fun p => forallb (fun q => implb (text_eqb (snd p) (snd q)) (text_eqb (fst p) (fst q))) sn) sn.
+
+Lemma sanitize_injective_lift l :
+  sanitize_injective_on l = true ->
+  forall a b, In a l -> In b l -> sanitize_env_name a = sanitize_env_name b -> a = b.
+Proof.
+  unfold sanitize_injective_on. cbv zeta. intros H a b Ha Hb E.
+  rewrite forallb_forall in H.
+  specialize (H (a, sanitize_env_name a)). rewrite forallb_forall in H.
+  assert (forall x, In x l -> In (x, sanitize_env_name x) (map (fun b => (b, sanitize_env_name b)) l)) as M.
+  { intros x Hx. apply in_map_iff. exists x. auto. }
+  specialize (H (M a Ha) (b, sanitize_env_name b) (M b Hb)). cbn [fst snd] in H.
+  rewrite E, text_eqb_refl in H. cbn [implb] in H. apply text_eqb_eq. exact H.
+Qed.
+
+Lemma registry_sanitize_injective : sanitize_injective_on all_boards = true.
+Proof. vm_compute. reflexivity. Qed.
+
+(* every name of the generated registry is a plain word: no blank, no line break, none of = : [ ] # ; *)
+Definition reg_name_ok (t : text) : bool :=
+  nonempty t &&
+  forallb (fun c => negb (is_space c) && negb (is_delim c) && negb (is_comment_prefix c)
+                    && negb (c =? c_lbr) && negb (c =? c_rbr)) t.
+
+Lemma registry_names_plain :
+  forallb reg_name_ok (map fst platforms ++ all_boards) = true.
+Proof. vm_compute. reflexivity. Qed.
+
+Lemma reg_name_value_ok t : reg_name_ok t = true -> value_ok t = true.
+Proof.
+  unfold reg_name_ok, value_ok. intro H. apply andb_true_iff in H as [Hne H].
+  rewrite forallb_forall in H.
+  assert (forall c, In c t -> is_space c = false) as Hs.
+  { intros c Hc. specialize (H c Hc). repeat (apply andb_true_iff in H as [H _]).
+    apply negb_true_iff in H. exact H. }
+  apply andb_true_iff. split.
+  - apply forallb_forall. intros c Hc. specialize (Hs c Hc).
+    destruct (c =? c_nl) eqn:E1; [apply Z.eqb_eq in E1; subst; discriminate|].
+    destruct (c =? c_cr) eqn:E2; [apply Z.eqb_eq in E2; subst; discriminate|]. reflexivity.
+  - destruct t as [|c r]; [reflexivity|]. unfold no_padding.
+    rewrite (Hs c) by (left; reflexivity). cbn [negb andb].
+    clear Hne H. revert c Hs. induction r as [|d q IH]; intros c Hs.
+    + cbn. rewrite (Hs c) by (left; reflexivity). reflexivity.
+    + change (last_nonspace (c :: d :: q)) with (last_nonspace (d :: q)).
+      apply IH. intros x Hx. apply Hs. right. exact Hx.
+Qed.
+
+Lemma registered_names_ok pl b : registered pl b -> value_ok pl = true /\ value_ok b = true.
+Proof.
+  intros (bs & H1 & H2).
+  pose proof registry_names_plain as R. rewrite forallb_forall in R.
+  split; apply reg_name_value_ok, R, in_or_app.
+  - left. apply in_map_iff. exists (pl, bs). auto.
+  - right. unfold all_boards. apply in_concat. exists bs. split; [|exact H2].
+    apply in_map_iff. exists (pl, bs). auto.
+Qed.
